@@ -428,6 +428,23 @@ var differs = []differ{
 		m.Setup[ds[0]] = a[:len(a)-1]
 		return true
 	}},
+	{"plugin-name-gains-the-suffix-canonicalisation-appends", func(t *rapid.T, w *world) bool {
+		// "foo#v1" and "foo-buildkite-plugin#v1" are different plugins by the documented rule
+		for _, p := range w.Step.Plugins {
+			fs := p.FullSource()
+			if fs == p.Source || !strings.HasPrefix(fs, "github.com/") {
+				continue // not a short form
+			}
+			name, ref, _ := strings.Cut(p.Source, "#")
+			np := name + "-buildkite-plugin"
+			if ref != "" || strings.Contains(p.Source, "#") {
+				np += "#" + ref
+			}
+			p.Source = np
+			return true
+		}
+		return false
+	}},
 	// single-point content changes
 	{"command-change", func(t *rapid.T, w *world) bool { w.Step.Command += "!"; return true }},
 	{"repo-change", func(t *rapid.T, w *world) bool { w.Repo += "!"; return true }},
